@@ -151,7 +151,8 @@ def _shards_step(tier):
 
 def _shards_seq(tier):
     if tier == "quick":
-        return [{"ops": [a, b], "nregs": 2, "maxlen": 2} for a in OPS for b in OPS]
+        return ([{"ops": [a, b], "nregs": 2, "maxlen": 2} for a in OPS for b in OPS]
+                + [{"ops": [a, b, c], "nregs": 2, "maxlen": 1} for a in ("write_batch", "write") for b in OPS for c in ("write_batch", "write")])
     return [{"ops": [a, b, c], "nregs": 2, "maxlen": 2} for a in OPS for b in OPS for c in OPS]
 
 
@@ -183,7 +184,7 @@ OBLIGATIONS = [
         name="sequences", kind="crosshair", harness=harness_seq, shards=_shards_seq,
         cpu_budget={"quick": 80.0, "thorough": 800.0}, encoded=_ENC,
         symbolic="as single_call, plus the length of every batch",
-        bounds={"quick": "2 registers on up to 4 layers; every sequence of 2 calls over {write_batch, read_batch, write, read}, batch length 0..2",
+        bounds={"quick": "2 registers on up to 4 layers; every sequence of 2 calls over {write_batch, read_batch, write, read}, batch length 0..2; every sequence write-call, any call, write-call with batch length 0..1",
                 "thorough": "2 registers on up to 4 layers; every sequence of 3 calls, batch length 0..2"},
         assumptions=_ASSUME),
 ]
